@@ -116,6 +116,6 @@ claim("C18",
 
 claim("C20",
   "round-trip property testing + exhaustive crash-point enumeration (every strict prefix of every generated file)",
-  "4e4/8e5 generated parameter tuples (b in (1,2], a in [1e-6,1e9], m and q over all of u64): dump, reload, compare with the stated tolerance; overwrite; then every prefix of the file as crash point must give Err, never Ok, never a panic; missing file gives Err. The prefix enumeration per file is exhaustive.",
+  "4e4/8e5 generated parameter tuples (b in (1,2], a in [1e-6,1e9], m and q over all of u64): dump, reload, compare with the stated tolerance (also the behaviour of the reloaded parameters); overwrite, incl. re-dumps differing in one ulp or in a single parameter; then every prefix of the file as crash point must give Err, never Ok, never a panic; missing file gives Err, also for directories that do not exist while the working directory of a child process holds a dump. The prefix enumeration per file is exhaustive.",
   "b and a are generated inside their documented ranges; for magnitudes such as 1e-143 serde_json's default parser is 1 ulp off even for 15-digit decimals (see DESIGN.md).",
   "DESIGN.md 5/C20")
